@@ -34,8 +34,8 @@ def contract(prop, target, params=None, level='proved', covers=(), budget=60.0, 
         plist = params if params is not None else [None]
         for p in plist:
             nm = fn.__name__
-            if p:
-                nm += '[' + ','.join('%s=%s' % (k, p[k]) for k in sorted(p)) + ']'
+            if p and any(not k.startswith('_') for k in p):
+                nm += '[' + ','.join('%s=%s' % (k, p[k]) for k in sorted(p) if not k.startswith('_')) + ']'
             REGISTRY.append(Contract(prop, target, fn, nm, p or {}, level, tuple(covers), budget, tier, note))
         return fn
     return deco
@@ -210,6 +210,16 @@ class SymContext(object):
     def lam(self, pyfunc):
         """wrap a Python function of the contract as a callable for the interpreted code"""
         return self._I.Builtin('contract-lambda', lambda ip, a, k: pyfunc(*a, **k))
+
+    def cos_sin_deg(self, degs):
+        """(cos, sin) of an angle given in degrees (same uninterpreted atoms the code reaches
+        through radians())"""
+        from . import trig
+        return trig.cos_sin(self._sym.div(self._sym.mul(degs, trig.PI()), 180))
+
+    def matrix(self, rows):
+        from . import models
+        return models.NDArr(rows)
 
     # ---- assumed dependency models supplied by the contract
     def roots_model(self, fn):
@@ -386,6 +396,14 @@ class ConcContext(object):
 
     def lam(self, pyfunc):
         return pyfunc
+
+    def cos_sin_deg(self, degs):
+        import math
+        return math.cos(math.radians(degs)), math.sin(math.radians(degs))
+
+    def matrix(self, rows):
+        import numpy as np
+        return np.array([[float(x) for x in r] for r in rows])
 
     def roots_model(self, fn):
         import numpy as np
